@@ -18,6 +18,16 @@ func registerMore(m map[string]propSpec) {
 	m["C12"] = propSpec{Level: "model_checking", Engines: []engine{{Harness: "codec", Overlay: "base", Shards: 8}}}
 	m["C14"] = propSpec{Level: "model_checking", Engines: []engine{{Harness: "conv", Overlay: "base"}}}
 	m["C15"] = propSpec{Level: "model_checking", Engines: []engine{{Harness: "stubsub", Overlay: "base", Shards: -1}}}
+	m["C19"] = propSpec{Level: "model_checking", Engines: []engine{
+		{Harness: "adapt", Overlay: "base", Name: "sched", Shards: 8},
+		{Harness: "unsol", Overlay: "base", Name: "content"},
+	}}
+	m["C17"] = propSpec{Level: "fault_enumeration", Engines: []engine{
+		{Harness: "reg", Overlay: "base", Name: "names", Shards: 8},
+		{Harness: "reg", Overlay: "base", Name: "masks", Shards: -1},
+		{Harness: "reg", Overlay: "base", Name: "stalls", Shards: 4},
+		{Harness: "reg", Overlay: "base", Name: "socket"},
+	}}
 	m["C06"] = propSpec{Level: "model_checking", Engines: []engine{
 		{Harness: "adapt", Overlay: "base", Name: "masks"},
 		{Harness: "adapt", Overlay: "base", Name: "order"},
